@@ -76,7 +76,7 @@ def gen(seed, tier):
         # side outputs of running multi-output plugins are saved as well
         for d in list(running):
             n = nb[d]
-            if n["kind"] == "multi":
+            if "names" in n:
                 for s in n["names"]:
                     sw = n["opts"]["save_when"][s]
                     if s not in cand and s not in w["stored"] and sw == "ALWAYS":
